@@ -234,6 +234,11 @@ def epKeyStr : C02.EpKey → String
   | .wep id => "w:" ++ id
   | .hep id => "h:" ++ id
 
+def setOrDel {κ β} [DecidableEq κ] (k : κ) (v : Option β) (m : List (κ × β)) : List (κ × β) :=
+  match v with
+  | some x => C02.mset k x m
+  | none => C02.mdel k m
+
 structure Graph where
   suppress : Bool
   arcProf : C05.Arc RulesIn := C05.Arc.new RulesIn
@@ -252,6 +257,8 @@ structure Graph where
   panicked : Bool := false
   /-- ghost: every call made on the EventSequencer so far, in order (no flush markers) -/
   calls : List C02.Call := []
+  /-- ghost: the rules each policy / profile was last activated with (absent = inactive) -/
+  active : List (RulesId × RulesIn) := []
 
 def Graph.new (suppress : Bool) : Graph := { suppress := suppress, idx := C04.Idx.new Str suppress }
 
@@ -266,36 +273,41 @@ def Graph.emit (g : Graph) (cs : List C02.Call) : Graph :=
 
 /-- the member index's callbacks → `OnIPSetMemberAdded/Removed`; `cleared` = the
 `callbacks.OnIPSetRemoved` of the `OnIPSetInactive` closure. -/
-def idxCall : C04.Event → C02.Call
-  | .added s m => .memberAdded s (showMember m)
-  | .removed s m => .memberRemoved s (showMember m)
-  | .cleared s => .ipsetRemoved s
+def idxCall : C04.Event → Option C02.Call
+  | .added s m => some (.memberAdded s (showMember m))
+  | .removed s m => some (.memberRemoved s (showMember m))
+  | .cleared _ => none     -- C04's marker for "the consumer is told OnIPSetRemoved": emitted by the closure below
 
 def Graph.idxOp (g : Graph) (op : C04.Op Str) : Graph :=
   let (idx, evs) := C04.stepEvents matchSel g.idx op
   let g := { g with idx := idx, panicked := g.panicked || idx.panicked }
-  g.emit (evs.map idxCall)
+  g.emit (evs.filterMap idxCall)
 
 /-- the `OnIPSetActive` / `OnIPSetInactive` closures of NewCalculationGraph. -/
 def Graph.onRsEvent (g : Graph) : RsEvent → Graph
   | .ipsetActive uid d =>
     let g := g.emit [.ipsetAdded uid (if d.proto ≠ C04.protoNone then 1 else 0)]
     g.idxOp (.updateIPSet uid d.sel d.proto d.port)
-  | .ipsetInactive uid => g.idxOp (.deleteIPSet uid)
+  | .ipsetInactive uid => (g.idxOp (.deleteIPSet uid)).emit [.ipsetRemoved uid]
+
+/-- `updateRules`: update the reference counts and deliver the OnIPSetActive/Inactive events. -/
+def Graph.rsUpdate (H : IdFn) (g : Graph) (key : RulesId) (rules : Option RulesIn) : Graph :=
+  let r := g.rs.updateRules key (match rules with
+    | some r => currentSets H r
+    | none => [])
+  r.2.foldl Graph.onRsEvent { g with rs := r.1, active := setOrDel key rules g.active }
+
+/-- the `RulesUpdateCallbacks` call that follows `updateRules`. -/
+def rulesCall (H : IdFn) : RulesId → Option RulesIn → C02.Call
+  | .pol k, some r => .policyActive k ⟨r.tag, refsOf H r⟩
+  | .pol k, none => .policyInactive k
+  | .prof p, some r => .profileActive p ⟨r.tag, refsOf H r⟩
+  | .prof p, none => .profileInactive p
 
 /-- `RuleScanner.OnPolicyActive/Inactive`, `OnProfileActive/Inactive`: update the reference
 counts (events first), then tell the EventSequencer. -/
 def Graph.scanRules (H : IdFn) (g : Graph) (key : RulesId) (rules : Option RulesIn) : Graph :=
-  let cur := match rules with
-    | some r => currentSets H r
-    | none => []
-  let (rs, evs) := g.rs.updateRules key cur
-  let g := evs.foldl Graph.onRsEvent { g with rs := rs }
-  match key, rules with
-  | .pol k, some r => g.emit [.policyActive k ⟨r.tag, refsOf H r⟩]
-  | .pol k, none => g.emit [.policyInactive k]
-  | .prof p, some r => g.emit [.profileActive p ⟨r.tag, refsOf H r⟩]
-  | .prof p, none => g.emit [.profileInactive p]
+  (g.rsUpdate H key rules).emit [rulesCall H key rules]
 
 /-- `DummyDropRules`. -/
 def dummyDropRules : RulesIn := ⟨"dummy-drop", [], []⟩
@@ -450,11 +462,6 @@ structure DS where
   tiers : List (String × (Option Int × String)) := []
   pols : List (Nat × (C02.PolicyKey × PolVal)) := []
 deriving Repr
-
-def setOrDel {κ β} [DecidableEq κ] (k : κ) (v : Option β) (m : List (κ × β)) : List (κ × β) :=
-  match v with
-  | some x => C02.mset k x m
-  | none => C02.mdel k m
 
 def DS.apply (ds : DS) : Upd → DS
   | .endpoint nid key isLocal v => { ds with eps := setOrDel nid (v.map (fun e => (key, isLocal, e))) ds.eps }
